@@ -16,6 +16,7 @@ import (
 	"fmt"
 	"io"
 	"math/big"
+	"regexp"
 	"strings"
 
 	_ "golang.org/x/crypto/sha3"
@@ -257,10 +258,10 @@ func fixedLocalityData() [][]byte {
 	var out [][]byte
 	full := []byte("StartupLocality\x00\x03\x00\x07\x00")
 	for n := 0; n <= 20; n++ {
-		out = append(out, append([]byte(nil), full[:n]...))                           // prefix of a good one (+ trailing garbage)
-		out = append(out, bytes.Repeat([]byte{0}, n))                                 // zeros
-		out = append(out, bytes.Repeat([]byte{'S'}, n))                               // no NUL at all
-		out = append(out, append(bytes.Repeat([]byte{'x'}, n), 0, 3))                 // wrong word of every length
+		out = append(out, append([]byte(nil), full[:n]...))                                             // prefix of a good one (+ trailing garbage)
+		out = append(out, bytes.Repeat([]byte{0}, n))                                                   // zeros
+		out = append(out, bytes.Repeat([]byte{'S'}, n))                                                 // no NUL at all
+		out = append(out, append(bytes.Repeat([]byte{'x'}, n), 0, 3))                                   // wrong word of every length
 		out = append(out, append(append([]byte(nil), []byte("StartupLocality")[:min(n, 15)]...), 0, 4)) // truncated word
 	}
 	for _, s := range []string{
@@ -665,7 +666,7 @@ func replay1(c *gal.Ctx, g genLog, p pcr.ID, a Alg) {
 		case size <= 0:
 			c.OracleFail(ci, "Replay returned a value for an algorithm without a hash function", site, in)
 		case !bytes.Equal(v, want):
-			c.OracleFail(ci, fmt.Sprintf("Replay returned %x, the TCG fold over the measurement events of PCR%d/alg 0x%x seeded with %x is %x", v, p, a, seed, want), site, in)
+			c.OracleFail(ci, fmt.Sprintf("Replay returned %x, the TCG fold over the measurement events of PCR%d/alg 0x%x seeded with %x is %x", v, p, uint16(a), seed, want), site, in)
 		default:
 			// no-action events never contribute a digest: changing their digests (same length) changes nothing
 			changed := false
@@ -776,7 +777,9 @@ func locality1(c *gal.Ctx, data []byte, kind string) {
 
 const physBase = uint64(0x100000000)
 
-var imageSizes = []uint64{0x1000000, 0x1000000, 0x1000000, 0x800000, 0x2000000, 0x10000, 0, 1, 0xFFFFFFFF, 0x100000000, 0x100000001, 0x100001000, 0xFFFFFFFFFFFFFFFF, 0x8000000000000000}
+var fvRE = regexp.MustCompile(`^Fv\(([0-9A-Fa-f]{8}-[0-9A-Fa-f]{4}-[0-9A-Fa-f]{4}-[0-9A-Fa-f]{4}-[0-9A-Fa-f]{12})\)$`)
+
+var imageSizes = []uint64{0x1000000, 0x1000000, 0x1000000, 0x800000, 0x2000000, 0x10000, 0x1000000, 0x400000, 0x80000000, 0xC0000000, 0, 1, 0xFFFFFFFF, 0x100000000, 0x100000001, 0x100001000, 0xFFFFFFFFFFFFFFFF, 0x8000000000000000}
 
 func le64(v uint64) []byte {
 	b := make([]byte, 8)
@@ -814,6 +817,44 @@ func rImageValue(c *gal.Ctx, isz uint64, wantOffset bool) uint64 {
 		return c.Rng.Uint64()
 	}
 	return c.Rng.Uint64() % (isz + 1)
+}
+
+// a value inside [lo, hi] (inclusive), hi >= lo
+func rIn(c *gal.Ctx, lo, hi uint64) uint64 {
+	span := hi - lo
+	if span == ^uint64(0) {
+		return c.Rng.Uint64()
+	}
+	return lo + c.Rng.Uint64()%(span+1)
+}
+
+// rPair returns the two 64-bit fields as they are laid out in the event data
+// (first field, second field); the code expects (length, offset) but adapts to (offset, length).
+func rPair(c *gal.Ctx, isz uint64) (uint64, uint64) {
+	validLen := rIn(c, 0, isz)
+	validOff := rImageValue(c, isz, true)
+	if isz > 0 && isz <= physBase {
+		validOff = rIn(c, physBase-isz, physBase-1)
+	}
+	var length, offset uint64
+	switch c.Rng.Intn(12) {
+	case 0, 1, 2, 3, 4, 5:
+		length, offset = validLen, validOff
+	case 6: // small length (valid both as a length and, for big images, never as an offset)
+		length, offset = uint64(c.Rng.Intn(0x1000)), validOff
+	case 7:
+		length, offset = rImageValue(c, isz, false), validOff
+	case 8:
+		length, offset = validLen, rImageValue(c, isz, true)
+	case 9: // both fields inside the window: valid in either order when the image is >= 2 GiB
+		length, offset = validOff, validOff
+	default:
+		length, offset = rImageValue(c, isz, false), rImageValue(c, isz, true)
+	}
+	if c.Rng.Intn(3) == 0 {
+		return offset, length
+	}
+	return length, offset
 }
 
 var guidAlphabet = "0123456789abcdefABCDEF"
@@ -915,11 +956,7 @@ func rParseEventDataInput(c *gal.Ctx) ped {
 	}
 	npairs := c.Rng.Intn(4)
 	for i := 0; i < npairs; i++ {
-		length := rImageValue(c, isz, false)
-		offset := rImageValue(c, isz, true)
-		if c.Rng.Intn(3) == 0 {
-			length, offset = offset, length
-		}
+		length, offset := rPair(c, isz)
 		data = append(data, le64(length)...)
 		data = append(data, le64(offset)...)
 	}
@@ -980,28 +1017,69 @@ func parseData1(c *gal.Ctx, in ped, kind string) {
 	if lo.Sign() < 0 {
 		lo.Add(lo, new(big.Int).Lsh(big.NewInt(1), 64)) // the code computes in uint64
 	}
+	validPair := func(length, offset uint64) bool { // documentation: length <= image size, offset inside the mapped image
+		off, ln := new(big.Int).SetUint64(offset), new(big.Int).SetUint64(length)
+		return off.Cmp(lo) >= 0 && off.Cmp(base) < 0 && ln.Cmp(isz) <= 0
+	}
 	ok := true
 	what := ""
-	if len(out.Ranges)*16 > len(data) {
-		ok, what = false, "more ranges than 16-byte pairs in the event data"
-	}
-	for i := 0; ok && i < len(out.Ranges); i++ {
-		x := out.Ranges[i]
-		off, ln := new(big.Int).SetUint64(x.Offset), new(big.Int).SetUint64(x.Length)
-		if off.Cmp(lo) < 0 || off.Cmp(base) >= 0 || ln.Cmp(isz) > 0 {
-			ok, what = false, fmt.Sprintf("range %d (offset 0x%x, length 0x%x) is not inside the image window", i, x.Offset, x.Length)
-			break
+	if in.ev.Type == evNoAction {
+		if len(out.Ranges) != 0 || out.Description != nil || len(out.FvGUIDs) != 0 {
+			ok, what = false, "a startup-locality event has no ranges and no description"
 		}
-		pair := data[len(data)-16*(i+1) : len(data)-16*i]
-		f0, f1 := binary.LittleEndian.Uint64(pair[:8]), binary.LittleEndian.Uint64(pair[8:])
-		if !((f0 == x.Length && f1 == x.Offset) || (f0 == x.Offset && f1 == x.Length)) {
-			ok, what = false, fmt.Sprintf("range %d is not the %d-th 16-byte pair from the end", i, i+1)
+	} else {
+		if len(out.Ranges)*16 > len(data) {
+			ok, what = false, "more ranges than 16-byte pairs in the event data"
 		}
-	}
-	if ok && out.Description != nil {
-		rest := data[:len(data)-16*len(out.Ranges)]
-		if len(rest) == 0 || int(rest[0]) != len(rest)-1 || string(rest[1:]) != *out.Description {
-			ok, what = false, "description is not the length-prefixed head of the event data"
+		for i := 0; ok && i < len(out.Ranges); i++ {
+			x := out.Ranges[i]
+			pair := data[len(data)-16*(i+1) : len(data)-16*i]
+			f0, f1 := binary.LittleEndian.Uint64(pair[:8]), binary.LittleEndian.Uint64(pair[8:])
+			switch {
+			case validPair(f0, f1): // (length, offset) is the expected order
+				if x.Length != f0 || x.Offset != f1 {
+					ok, what = false, fmt.Sprintf("range %d: the pair (length 0x%x, offset 0x%x) is valid as it stands but was reported as offset 0x%x, length 0x%x", i, f0, f1, x.Offset, x.Length)
+				}
+			case validPair(f1, f0):
+				if x.Length != f1 || x.Offset != f0 {
+					ok, what = false, fmt.Sprintf("range %d: the pair is valid only as (offset 0x%x, length 0x%x) but was reported as offset 0x%x, length 0x%x", i, f0, f1, x.Offset, x.Length)
+				}
+			default:
+				ok, what = false, fmt.Sprintf("range %d (offset 0x%x, length 0x%x) is not a (length, offset) pair inside the image window of the %d-th 16 bytes from the end", i, x.Offset, x.Length, i+1)
+			}
+		}
+		rest := data
+		if ok {
+			rest = data[:len(data)-16*len(out.Ranges)]
+			if len(rest) >= 16 {
+				f0, f1 := binary.LittleEndian.Uint64(rest[len(rest)-16:len(rest)-8]), binary.LittleEndian.Uint64(rest[len(rest)-8:])
+				if validPair(f0, f1) || validPair(f1, f0) {
+					ok, what = false, fmt.Sprintf("stopped after %d range(s) although the next 16 bytes (0x%x, 0x%x) are a valid (length, offset) pair", len(out.Ranges), f0, f1)
+				}
+			}
+		}
+		if ok {
+			hasDescr := len(rest) > 0 && int(rest[0]) == len(rest)-1
+			switch {
+			case hasDescr && (out.Description == nil || *out.Description != string(rest[1:])):
+				ok, what = false, "the length-prefixed description at the head of the event data was not reported"
+			case !hasDescr && out.Description != nil:
+				ok, what = false, "description is not the length-prefixed head of the event data"
+			}
+			// Fv(<guid>) descriptions
+			if ok {
+				var descr string
+				if out.Description != nil {
+					descr = *out.Description
+				}
+				if m := fvRE.FindStringSubmatch(descr); m != nil {
+					if len(out.FvGUIDs) != 1 || !strings.EqualFold(out.FvGUIDs[0].String(), m[1]) {
+						ok, what = false, "description Fv(<guid>) did not yield exactly that GUID"
+					}
+				} else if len(out.FvGUIDs) != 0 && !(len(descr) == 40 && strings.HasPrefix(descr, "Fv(") && strings.HasSuffix(descr, ")")) {
+					ok, what = false, "a GUID was reported for a description that is not Fv(<36 characters>)"
+				}
+			}
 		}
 	}
 	if ok && out.TPMInitLocality != nil {
@@ -1099,7 +1177,7 @@ func tpmReplay1(c *gal.Ctx, l tpm.EventLog, p pcr.ID, a Alg, loc uint8, kind str
 	case r.panicked:
 		c.OracleFail(ci, "EventLog.Replay panicked for PCR0 and a supported algorithm: "+r.pmsg, site, in)
 	case !bytes.Equal(v, want):
-		c.OracleFail(ci, fmt.Sprintf("EventLog.Replay returned %x; the TCG fold over the %d non-EV_NO_ACTION entries of PCR0/alg 0x%x seeded with zeros||%d is %x", v, len(ds), a, loc, want), site, in)
+		c.OracleFail(ci, fmt.Sprintf("EventLog.Replay returned %x; the TCG fold over the %d non-EV_NO_ACTION entries of PCR0/alg 0x%x seeded with zeros||%d is %x", v, len(ds), uint16(a), loc, want), site, in)
 	default:
 		c.OracleOK()
 	}
@@ -1213,7 +1291,7 @@ func fromParsed1(c *gal.Ctx, g genLog) {
 		var v2 []byte
 		p2, m2 := gal.Recover(func() { v2 = out.Replay(0, a, loc) })
 		if p2 || !bytes.Equal(v, v2) {
-			c.OracleFail(ci, fmt.Sprintf("tpmeventlog.Replay(PCR0, alg 0x%x) = %x but EventLogFromParsed(log).Replay(0, alg, %d) = %x %s", a, v, loc, v2, m2),
+			c.OracleFail(ci, fmt.Sprintf("tpmeventlog.Replay(PCR0, alg 0x%x) = %x but EventLogFromParsed(log).Replay(0, alg, %d) = %x %s", uint16(a), v, loc, v2, m2),
 				"tpmeventlog.Replay vs tpm.EventLog.Replay", map[string]interface{}{"log": logJSON(l), "alg": int(a), "locality": loc})
 		} else {
 			c.OracleOK()
@@ -1316,7 +1394,7 @@ func main() {
 	c.Finish("generated parsed logs ([]*tpmeventlog.Event built directly): well-formed (0..6 measurement events, optional leading startup event, " +
 		"interleaved other-bank/other-PCR/nil-digest noise), one-defect variants (wrong digest length, late/duplicate/malformed startup event, PCR>=2, " +
 		"bogus algorithm, PCR1 startup, nil digest) and random logs, each replayed for its own and for a foreign (PCR, algorithm); locality data of every " +
-		"length 0..20 in 5 shapes plus near-misses; ParseEventData inputs with 0..3 (length,offset) pairs valid/invalid/swapped/boundary for 14 image sizes and " +
+		"length 0..20 in 5 shapes plus near-misses; ParseEventData inputs with 0..3 (length,offset) pairs valid/invalid/swapped/boundary for 18 image sizes and " +
 		"length-prefixed descriptions incl. Fv(<guid>); tpm.EventLog entries with unchecked digest lengths. A case is non-trivial when at least one event of the " +
 		"queried PCR/bank exists (ParseLocality/ParseEventData: non-empty data); distinct = distinct Gallina literal")
 }
@@ -1331,6 +1409,20 @@ func fixedWitnesses(c *gal.Ctx) {
 		replay1(c, genLog{nil, 0, a, "fixed"}, 0, a)
 		replay1(c, genLog{nil, 1, a, "fixed"}, 1, a)
 		replay1(c, genLog{[]*Event{{PCRIndex: 1, Type: 1, Digest: d(a, 1)}}, 0, a, "fixed"}, 0, a)
+	}
+	// every supported bank once: startup event + two measurements on PCR0, two measurements on PCR1
+	for _, a := range []Alg{0x4, 0xB, 0xC, 0xD, 0x27, 0x28, 0x29} {
+		l := []*Event{
+			{PCRIndex: 0, Type: evNoAction, Data: goodStartup(3), Digest: d(a, 0)},
+			{PCRIndex: 1, Type: tpmeventlog.EV_S_CRTM_VERSION, Digest: d(a, 2)},
+			{PCRIndex: 0, Type: tpmeventlog.EV_POST_CODE, Digest: d(a, 1)},
+			{PCRIndex: 0, Type: tpmeventlog.EV_S_CRTM_CONTENTS, Digest: d(a, 0xff)},
+			{PCRIndex: 1, Type: tpmeventlog.EV_SEPARATOR, Digest: d(a, 0)},
+		}
+		replay1(c, genLog{l, 0, a, "fixed"}, 0, a)
+		replay1(c, genLog{l, 1, a, "fixed"}, 1, a)
+		replay1(c, genLog{l, 2, a, "fixed"}, 2, a)
+		fromParsed1(c, genLog{l, 0, a, "fixed"})
 	}
 	// D2: "StartupLocality" without NUL as the leading PCR0 event
 	g := genLog{[]*Event{{PCRIndex: 0, Type: evNoAction, Data: []byte("StartupLocality"), Digest: d(sha1, 0)}, {PCRIndex: 0, Type: 1, Digest: d(sha1, 7)}}, 0, sha1, "fixed"}
